@@ -181,6 +181,16 @@ CASES = [
     ("file", {"name": "f", "hashes": {"SSDEEP": "3:a:b", "SHA3-256": "2" * 64}}, {"name": "f", "hashes": {"SSDEEP": "3:a:b"}}),
     ("file", {"name": "f", "extensions": {"windows-pebinary-ext": {"pe_type": "exe", "sections": [{"name": "s", "entropy": 0.5}]}}},
      {"name": "f", "extensions": {"windows-pebinary-ext": {"pe_type": "exe", "sections": [{"name": "s", "entropy": 0.5}]}}}),
+    # hash dictionaries NESTED in a contributing value are content like any other: only the top-level hashes property is reduced to one hash
+    ("file", {"name": "f", "extensions": {"ntfs-ext": {"alternate_data_streams": [{"name": "a", "hashes": {"MD5": "0" * 32, "SHA-256": "2" * 64}}]}}},
+     {"name": "f", "extensions": {"ntfs-ext": {"alternate_data_streams": [{"name": "a", "hashes": {"MD5": "0" * 32, "SHA-256": "2" * 64}}]}}}),
+    ("file", {"hashes": {"SHA-256": "2" * 64, "MD5": "0" * 32}, "extensions": {"windows-pebinary-ext": {"pe_type": "exe", "file_header_hashes": {"SHA-1": "1" * 40, "MD5": "0" * 32},
+                                                                                                            "sections": [{"name": "s", "hashes": {"SHA-512": "0" * 128, "MD5": "0" * 32}}]}}},
+     {"hashes": {"MD5": "0" * 32}, "extensions": {"windows-pebinary-ext": {"pe_type": "exe", "file_header_hashes": {"SHA-1": "1" * 40, "MD5": "0" * 32},
+                                                                           "sections": [{"name": "s", "hashes": {"SHA-512": "0" * 128, "MD5": "0" * 32}}]}}}),
+    # booleans, numbers and nested arrays inside a contributing value (an unregistered property extension)
+    ("file", {"name": "f", "extensions": {"extension-definition--" + gen.UU: {"extension_type": "property-extension", "flags": [True, False, 1, 0, [True], 1.5], "n": None or 0}}},
+     {"name": "f", "extensions": {"extension-definition--" + gen.UU: {"extension_type": "property-extension", "flags": [True, False, 1, 0, [True], 1.5], "n": 0}}}),
     ("network-traffic", {"protocols": ["tcp"], "src_ref": "ipv4-addr--" + gen.UU, "src_port": 0, "start": "2020-01-01T00:00:00.120Z", "is_active": True},
      {"protocols": ["tcp"], "src_ref": "ipv4-addr--" + gen.UU, "src_port": 0, "start": "2020-01-01T00:00:00.12Z"}),
     ("process", {"pid": 1}, None),
